@@ -1746,7 +1746,9 @@ class PyCdlib:
                         else:
                             raise pycdlibexception.PyCdlibInternalError('Only expected two EFI sections')
                         num_seen_efi += 1
-                    elif enc.platform_id == 0:
+                    elif enc.platform_id == 0 and enc.entry is self.eltorito_boot_catalog.initial_entry:
+                        # The MBR boots the default entry, whatever other
+                        # entries for the same platform the catalog has.
                         self.isohybrid_mbr.update_rba(entry_extent)
 
                 if already_placed:
